@@ -61,7 +61,7 @@ func ruleCommandsSubmitted(c *Ctx) {
 						o = info.Defs[x]
 					}
 					if o != nil && isCmdSlice(o.Type()) && i < len(as.Rhs) {
-						if call, ok := ast.Unparen(as.Rhs[i]).(*ast.CallExpr); ok && exprString(call.Fun) == "append" {
+						if call, ok := ast.Unparen(as.Rhs[i]).(*ast.CallExpr); ok && (exprString(call.Fun) == "append" || buildsCommands(m.Pk, call)) {
 							slices[o] = true
 						}
 					}
@@ -89,7 +89,7 @@ func ruleCommandsSubmitted(c *Ctx) {
 						}
 					case *ast.Ident:
 						if (info.Uses[x] == so || info.Defs[x] == so) && i < len(as.Rhs) {
-							if call, ok := ast.Unparen(as.Rhs[i]).(*ast.CallExpr); ok && exprString(call.Fun) == "append" {
+							if call, ok := ast.Unparen(as.Rhs[i]).(*ast.CallExpr); ok && (exprString(call.Fun) == "append" || buildsCommands(m.Pk, call)) {
 								return true
 							}
 						}
@@ -123,7 +123,19 @@ func ruleCommandsSubmitted(c *Ctx) {
 			}
 			// directly, or through a helper of the package that submits the slice it is handed on
 			// every path (its empty-slice branch excepted)
-			submits := func(nd ast.Node) bool { return performs(m.Pk, nd, so, submitsDirect, 0) }
+			// … or, in a helper that builds commands for its caller, by returning the slice
+			returnsSlices := false
+			if cf.Decl != nil && cf.Lit == nil {
+				if sig, ok := info.Defs[cf.Decl.Name].(*types.Func).Type().(*types.Signature); ok && sig.Results().Len() >= 1 && isCmdSlice(sig.Results().At(0).Type()) {
+					returnsSlices = true
+				}
+			}
+			submits := func(nd ast.Node) bool {
+				if rs, ok := nd.(*ast.ReturnStmt); ok && returnsSlices && len(rs.Results) >= 1 && isObj(info, rs.Results[0], so) {
+					return true
+				}
+				return performs(m.Pk, nd, so, submitsDirect, 0)
+			}
 			g := buildCFG(m.Pk, body)
 			in := make([]int, len(g.Blocks)) // 0 unvisited, 1 clean, 2 pending (may)
 			in[0] = 1
@@ -2016,4 +2028,23 @@ func ruleEnqueueNonBlocking(c *Ctx) {
 	}
 	c.count("enqueue_methods", n)
 	c.floor("subsystem / plugin Enqueue methods", n, 6)
+}
+
+// buildsCommands: a call to a function of the package that returns a slice of store commands it
+// built (the caller then owns them and has to submit them).
+func buildsCommands(pk *packages.Package, call *ast.CallExpr) bool {
+	fn, ok := calleeOf(pk.TypesInfo, call).(*types.Func)
+	if !ok || fn.Pkg() != pk.Types {
+		return false
+	}
+	sig := fn.Type().(*types.Signature)
+	if sig.Results().Len() < 1 {
+		return false
+	}
+	sl, ok := sig.Results().At(0).Type().Underlying().(*types.Slice)
+	if !ok {
+		return false
+	}
+	p, ok := sl.Elem().(*types.Pointer)
+	return ok && isNamed(p.Elem(), pkgTAio, "Command")
 }
